@@ -40,7 +40,7 @@ def main(ck):
       '+-2*mjMAXVAL / 0.5*mjMAXVAL forces need not produce a bad acceleration; only nan/inf/1e300 forces must']
   q = ck.quick
   jobs_rel, jobs_asan = [], []
-  n_rel, n_asan = ck.budget(1200, 40000), ck.budget(60, 6000)
+  n_rel, n_asan = ck.budget(1200, 40000), ck.budget(60, 3000)
   sh_rel, sh_asan = (3, 1) if q else (8, 6)
   for s in range(sh_rel):
     jobs_rel.append(dict(family='inject', variant='rel', tier=ck.tier, seed=ck.seed, shard=s, n=n_rel // sh_rel))
